@@ -102,6 +102,10 @@ class StmtMixin:
             for n in forget:
                 old_ = st.env[n]
                 st.env[n] = self.fresh_sv("cut_" + n, old_.pt)
+            if getattr(holder, "only", False):
+                # a full cut: everything learnt since function entry is dropped; what the rest of the function may use is the
+                # preconditions and this lemma (dropping assumptions is always sound; it keeps later queries small and stable)
+                st.facts[:] = list(fr.entry_state.facts)
             tmp2 = St(st.guards, st.facts, dict(st.env), st.heap, st.eff, st.epoch)
             spec_fr = Frame(fr.fi, fr.contract, fr.cls, kind="spec")
             self.init_frame(spec_fr)
